@@ -6,5 +6,7 @@ CONSTANTS
   WaitBeforePrint = TRUE
   ReleaseAfterCheck = TRUE
   PrivateSlots = TRUE
+  TokenReturned = TRUE
+  RecordSched = TRUE
 INVARIANTS AtMostK NoCtxWriteDuringCheck PrintAfterAll SlotsComplete OutEqualsSequential TokensOK
 VIEW View
